@@ -58,9 +58,9 @@ def run(c):
     models = [("single", 2, 2, 1, "TplSingle", "{1, 3, 5}", "{1}", "{1, 2}", Q),
               ("master", 2, 1, 1, "TplMaster", "{1, 3, 5}", "{1, 2}", "{1}", OFF)]
     if not quick:
-        models += [("two", 2, 1, 2, "TplTwo", "{3, 5}", "{1, 2}", "{1}", '{"q"}'),
-                   ("single3", 3, 2, 1, "TplSingle", "{1, 3, 5}", "{1}", "{1, 2}", Q),
-                   ("masterfull", 2, 2, 1, "TplMasterAll", "{1, 3, 5}", "{1, 2}", "{1, 2}", OFF)]
+        models += [("single3", 3, 2, 1, "TplSingle", "{1, 3, 5}", "{1}", "{1, 2}", Q),
+                   ("two", 2, 1, 2, "TplTwo", "{3}", "{1, 2}", "{1}", '{"q"}'),
+                   ("masterall", 2, 1, 1, "TplMasterAll", "{1, 3, 5}", "{1, 2}", "{1}", OFF)]
     graphs, mstats = [], {}
     for (name, nu, mf, mg, tpl, steps, pools, amts, modes) in models:
         cfg = "MC_Gauge_%s_run.cfg" % name
@@ -80,27 +80,50 @@ def run(c):
         gen += r["generated"]
         dist += r["distinct"]
         mstats["two-gauges-design-only"] = dict(generated=r["generated"], distinct=r["distinct"], depth=r.get("depth"), wall=round(r["wall"], 1))
-    logf = os.path.join(wd, "gauge.ndjson")
-    runs, steps, nbig = (24, 90, 300) if quick else (400, 140, 3000)
-    out = vlib.run_vh(["gauge", "--vectors", tsplit, "--graph", ",".join(graphs), "--out", logf, "--seed", str(c.seed),
-                       "--runs", str(runs), "--steps", str(steps), "--bigsplits", str(nbig)], timeout=3000)
-    tr = vlib.trace_check(wd, "Trace_Gauge", "Trace_Gauge.cfg", logf, workers=4, timeout=3000, heap="8g" if not quick else "6g")
-    c.judge(tr, logf)
-    nodes = vlib.read_log(logf)
-    st = tr["stats"]
-    # samples: a split vector, a model-walk epoch with payouts, a random-driver epoch with real-size amounts
-    def pick(pred):
-        for n in nodes:
-            if pred(n):
-                return n
-        return None
-    def paid_block(n, prefix):
-        if n["a"] != "BeginBlock" or not n["run"].startswith(prefix):
-            return False
-        p = nodes[n["parent"] - 1]
-        return any(g["kind"] == "reg" and g2["trig"] > g["trig"] and g2["dist"] != g["dist"] for g, g2 in zip(p["st"]["gauges"], n["st"]["gauges"]))
-    smp = [pick(lambda n: n["a"] == "Split" and n["run"] == "vec" and n["args"]["n"] > 3 and len(n["st"]["split"]) > 0),
-           pick(lambda n: paid_block(n, "walk:master")), pick(lambda n: paid_block(n, "drive") and n["run"].endswith("big"))]
+    # harness + trace runs, in parts (each part is a self-contained tree log judged by one TLC run)
+    if quick:
+        parts = [dict(vectors=tsplit, graphs=graphs, first=0, runs=24, steps=90, nbig=300)]
+    else:
+        parts = [dict(vectors=tsplit, graphs=graphs[:2], first=0, runs=0, steps=0, nbig=3000),
+                 dict(vectors="", graphs=graphs[2:3], first=0, runs=0, steps=0, nbig=0),
+                 dict(vectors="", graphs=graphs[3:4], first=0, runs=0, steps=0, nbig=0),
+                 dict(vectors="", graphs=graphs[4:], first=0, runs=120, steps=140, nbig=0),
+                 dict(vectors="", graphs=[], first=120, runs=180, steps=140, nbig=0)]
+    st, nnodes, outs, tstates = {}, 0, [], 0
+    smp = [None, None, None]
+    for i, pt in enumerate(parts):
+        logf = os.path.join(wd, "gauge%d.ndjson" % i)
+        args = ["gauge", "--out", logf, "--seed", str(c.seed), "--first", str(pt["first"]), "--runs", str(pt["runs"]),
+                "--steps", str(pt["steps"]), "--bigsplits", str(pt["nbig"])]
+        if pt["vectors"]:
+            args += ["--vectors", pt["vectors"]]
+        if pt["graphs"]:
+            args += ["--graph", ",".join(pt["graphs"])]
+        out = vlib.run_vh(args, timeout=3000)
+        outs.append(out.strip().splitlines()[-1] if out.strip() else "")
+        tr = vlib.trace_check(wd, "Trace_Gauge", "Trace_Gauge.cfg", logf, workers=4, timeout=3000)
+        c.judge(tr, logf)
+        for k, v in tr["stats"].items():
+            st[k] = st.get(k, 0) + v
+        tstates += tr.get("distinct", 0)
+        nodes = vlib.read_log(logf)
+        nnodes += len(nodes)
+        # samples: a split vector, a model-walk epoch with payouts, a random-driver epoch with real-size amounts
+        def pick(pred):
+            for n in nodes:
+                if pred(n):
+                    return n
+            return None
+        def paid_block(n, prefix):
+            if n["a"] != "BeginBlock" or not n["run"].startswith(prefix):
+                return False
+            p = nodes[n["parent"] - 1]
+            return any(g["kind"] == "reg" and g2["trig"] > g["trig"] and g2["dist"] != g["dist"] for g, g2 in zip(p["st"]["gauges"], n["st"]["gauges"]))
+        cand = [pick(lambda n: n["a"] == "Split" and n["run"] == "vec" and n["args"]["n"] > 3 and len(n["st"]["split"]) > 0),
+                pick(lambda n: paid_block(n, "walk:master")), pick(lambda n: paid_block(n, "drive") and n["run"].endswith("big"))]
+        smp = [a or b for a, b in zip(smp, cand)]
+        del nodes
+        os.remove(logf)
     c.samples = [dict(id=s["id"], run=s["run"], a=s["a"], args=s["args"], parent=s["parent"],
                       st=dict(s["st"], users=s["st"].get("users", [])[:2]) if "users" in s["st"] else s["st"]) for s in smp if s]
     need = ["splits", "bigSplits", "gaugeEpochs", "proRataPaid", "masterPaid", "skippedEpochBlocks", "created", "rejected", "gaugesEnded",
@@ -109,9 +132,9 @@ def run(c):
     if zero and not c.violations:   # a violation on real-code states is a verdict even if other antecedents were not exercised
         raise vlib.NoVerdict("vacuous run, antecedent counters are 0: %s (%s)" % (zero, st))
     return c.finish("model_checking", dict(
-        states=dist, transitions=gen, traces_validated_against_impl=len(nodes),
-        model_runs=mstats, split_vectors=nsplit, trace_states=tr.get("distinct"), antecedents=st,
-        harness=out.strip().splitlines()[-1] if out.strip() else "",
+        states=dist, transitions=gen, traces_validated_against_impl=nnodes,
+        model_runs=mstats, split_vectors=nsplit, trace_states=tstates, antecedents=st,
+        harness=outs,
         exhaustive=True,
         rule="(a) every (deposit, epochs) pair of the split table is one vector on the real SplitTotalAmountPerEpoch (+ seeded real-size vectors up to 2^64-1); "
              "(b) every transition of the bounded MC_Gauge models (create/reject gauge, farm/unfarm by 2-3 farmers, price quote/base/off, time steps "
